@@ -83,7 +83,7 @@ def fuzz_engine(ver, seconds):
     if b.returncode != 0:
         ver.inconclusive.append("libFuzzer target build failed: " + b.stdout[-1200:])
         return
-    work = os.path.join(vd.TARGET_ROOT, "fuzz-work", ver.prop)
+    work = os.path.join(vd.scratch_dir(), "fuzz-work", ver.prop)
     shutil.rmtree(work, ignore_errors=True)
     corpus, arts = os.path.join(work, "corpus"), os.path.join(work, "artifacts")
     os.makedirs(arts, exist_ok=True)
@@ -146,7 +146,7 @@ def lifetimes_corpus(ver):
         return
     rlib = rlibs[-1]
     root = os.path.join(vd.VERIF, "lifetimes")
-    out = os.path.join(vd.TARGET_ROOT, "out", "lt")
+    out = os.path.join(vd.scratch_dir(), "lt")
     os.makedirs(out, exist_ok=True)
     files = sorted(glob.glob(os.path.join(root, "fail", "*.rs"))) + sorted(glob.glob(os.path.join(root, "pass", "*.rs")))
 
@@ -241,8 +241,8 @@ pub fn all(buf: &[u8]) -> usize {
 
 def core_only_build(ver):
     """httparse with the std feature off, built for a target whose sysroot has core only."""
-    src = os.path.join(vd.TARGET_ROOT, "coreonly-src")
-    td = os.path.join(vd.TARGET_ROOT, "coreonly")
+    src = os.path.join(vd.scratch_dir(), "coreonly-src")
+    td = os.path.join(vd.scratch_dir(), "coreonly")
     shutil.rmtree(src, ignore_errors=True)
     os.makedirs(os.path.join(src, "src"), exist_ok=True)
     open(os.path.join(src, "Cargo.toml"), "w").write(
